@@ -33,7 +33,7 @@ META = dict(
         "1..N; the same with NaN states (missing_values=True) for a "
         "rotating subset of masks; seeded random dyadic series (length "
         "<=60, 1..3 components or embedding) in both modes with and without "
-        "NaN; fixed local recurrence rate (asymmetric R); series placed on "
+        "NaN; fixed local recurrence rate (asymmetric R); objects with a history (built by threshold / rate / local rate / threshold_std, all histograms queried, then re-thresholded 1-3 times through set_fixed_threshold / _threshold_std / _recurrence_rate / _local_recurrence_rate, judged against the matrix they then report); series placed on "
         "float32 rounding boundaries of eps (values from {0,+-delta,+-fl32("
         "eps), neighbours} so that distances fall in [mid(fl32 neighbours of "
         "eps), eps)), both modes against the float64 rule d<eps.  Oracle: "
@@ -54,7 +54,8 @@ META = dict(
                   "kernel_random_matrices": 700, "api_realised": 1700,
                   "api_hist_compared": 9000, "api_scalar_compared": 150000,
                   "api_sparse_objects": 1700, "api_missing_objects": 1000,
-                  "api_asymmetric_objects": 250,
+                  "api_asymmetric_objects": 60,
+                  "api_history_objects": 60, "api_history_asymmetric": 15,
                   "conservation_checked": 2000, "boundary_cases": 500,
                   "boundary_cases_modes_disagree_in_R": 150,
                   "sequential_vs_matrix_compared": 3000},
@@ -66,7 +67,9 @@ META = dict(
                      "api_scalar_compared": 1400000,
                      "api_sparse_objects": 15000,
                      "api_missing_objects": 7500,
-                     "api_asymmetric_objects": 3000,
+                     "api_asymmetric_objects": 1500,
+                     "api_history_objects": 1500,
+                     "api_history_asymmetric": 500,
                      "conservation_checked": 20000, "boundary_cases": 6500,
                      "boundary_cases_modes_disagree_in_R": 2500,
                      "sequential_vs_matrix_compared": 30000}},
@@ -528,7 +531,10 @@ def run(ctx):
             elif fam in (3, 4):
                 random_api_case(ctx, RP, r, cid, nmax)
             elif fam == 5:
-                local_rate_case(ctx, RP, r, cid, nmax)
+                if (k // 8) % 2:
+                    local_rate_case(ctx, RP, r, cid, nmax)
+                else:
+                    history_case(ctx, RP, r, cid, nmax)
             else:
                 boundary_case(ctx, RP, K, r, cid, nmax)
 
@@ -639,6 +645,56 @@ def local_rate_case(ctx, RP, r, cid, nmax):
     api_judge(ctx, obj, R, None, cid, [], {"x": x,
                                            "local_recurrence_rate": rr}, r,
               all_mins=False)
+
+
+def history_case(ctx, RP, r, cid, nmax):
+    """A matrix that the object obtained after construction: built one way,
+    queried, then re-thresholded through the public setters (symmetric and
+    asymmetric rules in any order).  Whatever matrix the object now reports,
+    its histograms are the run-length counts of that matrix."""
+    n = int(r.integers(2, 25))
+    x = r.integers(-32, 33, (n, int(r.integers(1, 3)))) / 8.0
+    ctor = [{"threshold": float(r.choice([0.4, 1.0, 2.5]))},
+            {"recurrence_rate": float(r.choice([0.1, 0.3, 0.6]))},
+            {"local_recurrence_rate": float(r.choice([0.15, 0.4]))},
+            {"threshold_std": float(r.choice([0.3, 1.0]))}][
+                int(r.integers(0, 4))]
+    obj = api_object(ctx, RP, x, cid, ["history"], False, False, **dict(ctor))
+    if obj is None:
+        return
+    steps = []
+    setters = [("set_fixed_threshold", lambda: float(r.choice([0.3, 1.1, 3.0]))),
+               ("set_fixed_threshold_std", lambda: float(r.choice([0.2, 0.9]))),
+               ("set_fixed_recurrence_rate",
+                lambda: float(r.choice([0.12, 0.35, 0.7]))),
+               ("set_fixed_local_recurrence_rate",
+                lambda: float(r.choice([0.1, 0.3, 0.55])))]
+    with warnings.catch_warnings():
+        warnings.simplefilter("ignore")
+        nsteps = int(r.integers(1, 4))
+        last_local = r.random() < 0.4
+        for si in range(nsteps):
+            # warm every cache with the matrix about to be replaced
+            for q in ("diagline_dist", "vertline_dist", "white_vertline_dist",
+                      "recurrence_rate", "determinism", "laminarity"):
+                ctx.call(getattr(obj, q))
+            name, argf = setters[3 if (last_local and si == nsteps - 1)
+                                 else int(r.integers(0, len(setters)))]
+            a = argf()
+            ok, e = ctx.call(getattr(obj, name), a)
+            steps.append([name, a])
+            if not ok:
+                ctx.violation(sig("RecurrencePlot." + name,
+                                  f"raises:{type(e).__name__}", ["history"]),
+                              {"x": x, "ctor": ctor, "steps": steps,
+                               "exc": repr(e)}, cid)
+                return
+    R = np.asarray(obj.recurrence_matrix())
+    ctx.count("api_history_objects")
+    if not np.array_equal(R, R.T):
+        ctx.count("api_history_asymmetric")
+    api_judge(ctx, obj, R, None, cid, ["history"],
+              {"x": x, "ctor": ctor, "steps": steps}, r, all_mins=False)
 
 
 def boundary_case(ctx, RP, K, r, cid, nmax):
